@@ -694,6 +694,33 @@ def ownership_gap(rep, split=False):
                     rep.bad('R19.b', key, cs.loc(), '%s releases ownership without dropping (%s) in codec code: on an error path the allocation is never freed' % (b.key, cs.callee))
     if n < 1:
         rep.anchor_missing('R19.b', 'mem::forget in prost string::merge')
+    # a value moved into a MaybeUninit slot is dropped by nobody until assume_init*: an error return in between leaks it
+    for b in prog.bodies.values():
+        if b.crate not in ('vgen', 'pilota'):
+            continue
+        if b.crate == 'pilota' and not (b.key.startswith('thrift::') or b.key.startswith('<thrift::') or b.key.startswith('prost::') or b.key.startswith('<prost::')):
+            continue
+        adopt = {cs.bb for cs in b.calls() if 'MaybeUninit' in cs.callee and cs.name.startswith('assume_init')}
+        for cs in b.calls():
+            if 'MaybeUninit' in cs.callee and cs.name in ('write', 'new'):
+                nd = cs.t.get('gargs_needs_drop') or [True]
+                if not any(nd):
+                    continue
+                succ = b.cfg[0]
+                seen, st, leak = set(), [y for y in succ[cs.bb] if not b.bbs[y]['cleanup']], None
+                while st and leak is None:
+                    x = st.pop()
+                    if x in seen or x in adopt or b.bbs[x]['cleanup']:
+                        continue
+                    seen.add(x)
+                    if b.bbs[x]['t']['k'] == 'return':
+                        leak = x
+                    st.extend(succ[x])
+                key = 'R19.b|%s|MaybeUninit slot adopted on every path' % (b.id if b.crate == 'pilota' else 'generated')
+                if leak is None:
+                    rep.ok('R19.b', key, 'every return after MaybeUninit::%s passes assume_init*' % cs.name, cs.loc())
+                else:
+                    rep.bad('R19.b', key, cs.loc(), '%s moves a value that owns memory into a MaybeUninit slot and can return (an error path) without assume_init*: nothing drops the slot, so the partially decoded value - and the input buffer it references - is never freed' % b.key)
     # ptr::write through a `&mut T` parameter overwrites a live value without running its destructor
     for b in prog.bodies.values():
         if b.crate not in ('vgen', 'pilota'):
